@@ -1,7 +1,7 @@
 /-
   Mxj.Model.Json — model of json.go: `Map.Json` (encoding/json's encoder for JSON-shaped
   values; repaired code asks the encoder not to escape HTML characters instead of rewriting
-  the output bytes), `NewMapJson` (first-value decoding, the leading-'[' wrapper, empty input),
+  the output bytes), `NewMapJson` (first-value decoding, a leading '[' returned under "object", empty input),
   and the JSON text grammar as encoding/json implements it (trusted-base model, sampled).
   Numbers are opaque literals: `Val.num ("jn:" ++ text)`.
 -/
@@ -195,12 +195,23 @@ end
 /-- `json.NewDecoder(b).Decode(&v)`: the first value; trailing bytes are not looked at -/
 def firstValue (s : Str) : Option Val := (value (s.length + 1) s).map (·.1)
 
-/-- `NewMapJson(jsonVal)` with `JsonUseNumber` on: `none` = error -/
+/-- the key under which `NewMapJson` returns a top-level array, as an explicit character list -/
+def objKey : Str := ['o', 'b', 'j', 'e', 'c', 't']
+
+/-- `NewMapJson(jsonVal)` with `JsonUseNumber` on: `none` = error.
+    Empty input is the empty Map.  When the first non-white-space byte is '[' the FIRST VALUE is
+    decoded on its own (`json.Decoder.Decode(&v)` into an `interface{}`) and returned as
+    `Map{"object": v}`; a decoding error is the error.  Otherwise the first value is decoded into
+    the Map: an object is accepted, `null` leaves a nil Map and no error, anything else is an
+    error.  Bytes behind the first value are never looked at in either branch.
+    (Before the repair of F-JSON-ARRAYTAIL the array branch decoded the text
+    `{"object":` ++ input ++ `}`, so the bytes behind the array were parsed inside the wrapper.) -/
 def newMapJson (s : Str) : Option Val :=
   if s.isEmpty then some (.map [])
+  else if (skipWs s).head? = some '[' then
+    (firstValue s).map fun v => .map [(objKey, v)]
   else
-    let s' := if (skipWs s).head? = some '[' then "{\"object\":".toList ++ s ++ ['}'] else s
-    match firstValue s' with
+    match firstValue s with
     | some (.map m) => some (.map m)
     | some .null => some .null          -- a nil Map and no error
     | _ => none
